@@ -12,6 +12,9 @@ Decides:
         does not stop at the first error) and sets EXIT_EARLY, on every path; the coordinator
         tests the flag every iteration.
   R18.5 the handler is installed before the first worker is started.
+  R18.6 an interrupt cannot hang: the handler returns at once when EXIT_EARLY is already set (it
+        keeps the registry lock for good, so a second run would block holding the channel registry),
+        and processing_loop tests EXIT_EARLY between its main loop and the thread join.
 Does not decide: time from signal to exit, signals before processing_loop starts.
 """
 import decide
@@ -184,10 +187,17 @@ def run(prog, rep, tier):
     hw = [w for w in hb.live_calls() if w.d.endswith("RwLock::<T>::write") and NTF in " ".join(str(x) for x in hb.origins(w.args[0], through_calls=("::deref", "Deref>::deref")))]
     if len(hw) != 1:
         raise CheckerError("signal handler: %d write locks on the temp-file registry" % len(hw))
+    # blocks of the "already handled" early return: reachable from the EXIT_EARLY read without passing any other lock
+    _locks = [c for c in hb.live_calls() if c.d.endswith("RwLock::<T>::write") or c.d.endswith("RwLock::<T>::read")]
+    _flag = [c for c in _locks if "RwLock::<bool>::read" in c.f]
+    _others = set(c.bb for c in _locks if "RwLock::<bool>" not in c.f)
+    already = set()
+    if _flag and all(hb.dominates(_flag[0].bb, o) for o in _others):
+        already = set(x for x in hb.reachable(_flag[0].bb, _others) if hb.term(x)[0] == "ret")
     hguards = guard_local_of(hb, hw[0])
     forgets = [c for c in hb.live_calls() if c.d.startswith("std::mem::forget") and any(a[0] in ("cp", "mv") and a[1][0] in hguards for a in c.args)]
     hdrops = [bb for bb in hb.live if hb.term(bb)[0] == "drop" and hb.term(bb)[1][0] in hguards]
-    rets = hb.exits()
+    rets = [r for r in hb.exits() if r not in already]
     released = [d for d in hdrops]
     # a drop terminator on a moved-out (forgotten) guard is elided by drop elaboration; any remaining live drop releases the lock
     never_released = bool(forgets) and all(any(hb.dominates(f.bb, r) for f in forgets) for r in rets) and not released
@@ -243,6 +253,8 @@ def run(prog, rep, tier):
                 rep.violation(R184, hb.path + "|sweep", "signal handler: the sweep over the listed temporary files can stop before the list is exhausted")
             # sweep happens on every path to return
             for r in hb.exits():
+                if r in already:
+                    continue  # repeated signal: the first run already swept
                 if r in hb.reachable(0, {lh[0]}):
                     rep.violation(R184, hb.path + "|sweep-all-paths", "signal handler: can return without sweeping the listed temporary files")
     # all three dominate the return
@@ -255,6 +267,32 @@ def run(prog, rep, tier):
     rep.examined(R184, PL + "|flag-tested", sample={"flag_reads_in_loop": len(reads), "before_blocking_receive": dom_all})
     if not reads or not dom_all:
         rep.violation(R184, PL + "|flag-tested", "processing_loop: EXIT_EARLY is not tested on every iteration before blocking in the receive")
+
+    # ------------------------------------------------------------ R18.6 no hang on interrupt
+    R186 = rep.rule("R18.6", "an interrupt cannot hang the program (repeated signal; join after interrupt)")
+    # (a) the handler keeps the temp-file registry locked for good (R18.2); a second run of the handler must
+    #     therefore return before it touches any lock other than the flag: the EXIT_EARLY test dominates every
+    #     other lock acquisition and its true arm returns
+    locks = [c for c in hb.live_calls() if c.d.endswith("RwLock::<T>::write") or c.d.endswith("RwLock::<T>::read") or c.d.endswith("Mutex::<T>::lock")]
+    flag_reads = [c for c in locks if "RwLock::<bool>::read" in c.f]
+    others = [c for c in locks if c not in flag_reads and "RwLock::<bool>" not in c.f]
+    idem = False
+    if flag_reads and never_released:
+        fr = flag_reads[0]
+        idem = all(hb.dominates(fr.bb, o.bb) for o in others)
+        # a return is reachable from the flag test without passing any other lock acquisition
+        early_ret = any(hb.term(x)[0] == "ret" for x in hb.reachable(fr.bb, set(o.bb for o in others)))
+        idem = idem and early_ret
+    rep.examined(R186, hb.path + "|repeat", sample={"registry_guard_never_released": never_released, "flag_test_first_and_returns": idem})
+    if never_released and not idem:
+        rep.violation(R186, hb.path + "|repeat", "signal handler: it never releases the temp-file registry lock, but a second signal runs it again and blocks on that lock while holding the channel registry; the main thread then blocks forever (Ctrl-C pressed twice hangs the program)")
+    # (b) the join after the main loop must not be reached after an interrupt: an EXIT_EARLY test lies between the loop and the join
+    if joins:
+        reads_after = [c for c in b.live_calls() if "RwLock::<bool>::read" in c.f and c.bb not in L]
+        guarded = any(all(b.dominates(r.bb, j.bb) for j in joins) for r in reads_after)
+        rep.examined(R186, PL + "|join-after-interrupt", sample={"flag_tests_after_loop": len(reads_after), "flag_test_dominates_join": guarded})
+        if not guarded:
+            rep.violation(R186, PL + "|join-after-interrupt", "processing_loop: after an interrupt the function can reach JoinHandle::join; a worker blocked on the temp-file registry lock (kept by the handler) never finishes, so the interrupted program hangs")
 
     # ------------------------------------------------------------ R18.5
     inst = PL + "|handler-before-spawn"
